@@ -90,6 +90,7 @@ def sequential_outcomes(w, init, program):
 def run_schedule(ps, w, init, program, bound, allowed, pinned=None):
     F = build_pinned(ps, w, init)
     s = w.store()
+    sched.reset_primitives(s)
     sc = sched.Sched(ps, bound, pinned)
     sched.CUR[0] = sc
     F.on_point = sc.point
@@ -140,7 +141,9 @@ def run_schedule(ps, w, init, program, bound, allowed, pinned=None):
 
 def explore_scenarios(w_args, scenarios_fn, bound, procs=None, mp=False):
     """scenarios_fn(world) -> list of (name, init dict, [calls]).  One worker per scenario."""
-    a = dict(w_args, threading_mod=sched.fthreading, multiprocessing_mod=sched.fmultiprocessing, sym_dirs=False, mp=mp)
+    # multiprocessing mode: each scheduled thread stands for a forked process, so threading primitives are process-local
+    a = dict(w_args, threading_mod=sched.fthreading_proclocal if mp else sched.fthreading,
+             multiprocessing_mod=sched.fmultiprocessing, sym_dirs=False, mp=mp)
     w0 = World(**a)
     names = [sc[0] for sc in scenarios_fn(w0)]
 
@@ -166,8 +169,8 @@ def explore_scenarios(w_args, scenarios_fn, bound, procs=None, mp=False):
 
 
 def replay_schedule(w_args, scenarios_fn, k, log, bound, want_prefix, mp=False):
-    a = dict(w_args, threading_mod=sched.fthreading, multiprocessing_mod=sched.fmultiprocessing, sym_dirs=False,
-             mode="passthrough", mp=mp)
+    a = dict(w_args, threading_mod=sched.fthreading_proclocal if mp else sched.fthreading,
+             multiprocessing_mod=sched.fmultiprocessing, sym_dirs=False, mode="passthrough", mp=mp)
     w = World(**a)
     try:
         name, init, program = scenarios_fn(w)[k]
